@@ -40,3 +40,6 @@ def run(ctx):
     # "each carrying its true distance": C11's structural clauses (kernel shape, dispatch, formula shapes) are re-checked here
     from props import C11
     C11.structural(ctx)
+    # "no deleted item is returned", "results come from the index as built": the forest and staleness premises
+    import premises
+    premises.forest(ctx)
